@@ -16,6 +16,7 @@ def parseFault (s : String) : Option (Option (Nat × Fault)) :=
     let p ← p.toNat?
     let k ← if k == "rpcerr" then some Fault.rpcError else if k == "errwarnok" then some .errWarnOk
       else if k == "manywarnerrok" then some .errWarnOk
+      else if k == "errloadsuccess" then some .errWarnOk
       else if k == "errcount" then some .errCount else if k == "malformed" then some .malformed
       else if k == "wrongid" then some .wrongId else if k == "closebefore" then some .closeBefore
       else if k == "closeafter" then some .closeAfter else none
